@@ -462,8 +462,31 @@ pub proof fn lemma_wire_add(base: int, d: int)
 {
 }
 
-pub open spec fn all_sender_ok(ev: Seq<PktV>, from: int, data: Seq<u8>, cs: nat) -> bool {
+/// every datagram emitted from index `from` on is allowed by `sender_ev_ok` (body hidden from the
+/// callers' queries; the lemmas below are its interface)
+pub closed spec fn all_sender_ok(ev: Seq<PktV>, from: int, data: Seq<u8>, cs: nat) -> bool {
     forall|k: int| from <= k < ev.len() ==> sender_ev_ok(#[trigger] ev[k], data, cs)
+}
+
+pub proof fn lemma_all_sender_ok_intro(ev: Seq<PktV>, from: int, data: Seq<u8>, cs: nat)
+    requires forall|k: int| from <= k < ev.len() ==> sender_ev_ok(#[trigger] ev[k], data, cs),
+    ensures all_sender_ok(ev, from, data, cs),
+{
+}
+
+/// a trace that grew by at most one ERROR datagram stays allowed
+pub proof fn lemma_all_sender_ok_one_error(e: Seq<PktV>, old_ev: Seq<PktV>, data: Seq<u8>, cs: nat)
+    requires
+        e.len() <= old_ev.len() + 1, e.len() >= old_ev.len(),
+        e.len() > old_ev.len() ==> e.last() is Error,
+    ensures all_sender_ok(e, old_ev.len() as int, data, cs),
+{
+}
+
+pub proof fn lemma_all_sender_ok_elim(ev: Seq<PktV>, from: int, data: Seq<u8>, cs: nat)
+    requires all_sender_ok(ev, from, data, cs),
+    ensures forall|k: int| from <= k < ev.len() ==> sender_ev_ok(#[trigger] ev[k], data, cs),
+{
 }
 
 /// number of blocks a transfer of `len` bytes has with block size `cs` (the last one is short, possibly empty)
